@@ -878,7 +878,23 @@ func c05Exec(c Case, prop string) (outs []string, fails []Failure, tags []string
 	}
 	// ---- store-trace monitor (C05): what the keeper holds at the end of the history must be what it holds after the
 	// same history without the reverted spans ----
-	if prop == "C05" && len(env.spans) > 0 && len(outs) > 0 && strings.Contains(outs[len(outs)-1], "keeper[") {
+	// (not for histories in which CreateAccount lands on an account whose storage has been written: the EVM creates
+	// contracts only at addresses without code and nonce, which hold no storage; there a flush in the middle of the
+	// transaction legitimately decides whether the earlier storage writes reach the keeper before the object is replaced)
+	createOverStorage := false
+	{
+		wrote := map[string]bool{}
+		for _, line := range orig {
+			f := strings.Fields(line)
+			if len(f) >= 2 && f[0] == "setstate" {
+				wrote[f[1]] = true
+			}
+			if len(f) >= 2 && f[0] == "createacct" && wrote[f[1]] {
+				createOverStorage = true
+			}
+		}
+	}
+	if prop == "C05" && !createOverStorage && len(env.spans) > 0 && len(outs) > 0 && strings.Contains(outs[len(outs)-1], "keeper[") {
 		var ref Case
 		for i, line := range orig {
 			drop := false
@@ -891,7 +907,11 @@ func c05Exec(c Case, prop string) (outs []string, fails []Failure, tags []string
 				ref = append(ref, line)
 			}
 		}
-		refOuts, _, _ := c05Exec(ref, "C05ref")
+		// both histories are brought to the end of the transaction (a final Commit) before the keeper is looked at: a flush
+		// inside a reverted span also writes what was dirty before the span, which the final Commit would write anyway
+		fin := func(h Case) Case { return append(append(Case{}, h...), "commit", "dump") }
+		outs, _, _ := c05Exec(fin(orig), "C05ref")
+		refOuts, _, _ := c05Exec(fin(ref), "C05ref")
 		keeperOf := func(s string) []string {
 			a := strings.Index(s, "keeper[")
 			if a < 0 {
